@@ -3,7 +3,6 @@
 
 """Formula generator from component graph for Grid Power."""
 
-import itertools
 import logging
 
 from frequenz.client.microgrid import Component, ComponentCategory, ComponentMetricId
@@ -19,6 +18,7 @@ from ._formula_generator import (
     FormulaGenerator,
     FormulaGeneratorConfig,
 )
+from ._simple_formula import SimplePowerFormula
 
 _logger = logging.getLogger(__name__)
 
@@ -148,21 +148,17 @@ class BatteryPowerFormula(FormulaGenerator[Power]):
                 fallback_formulas[primary_component] = None
                 continue
 
-            battery_ids = set(
-                map(
-                    lambda battery: battery.component_id,
-                    itertools.chain.from_iterable(
-                        inv_bat_mapping[inv] for inv in fallback_components
-                    ),
-                )
-            )
-
-            generator = BatteryPowerFormula(
-                f"{self._namespace}_fallback_{battery_ids}",
+            # The fallback of a meter is the sum of the inverters connected to it.  (A
+            # battery formula for the batteries behind those inverters would also
+            # include inverters that are connected to the same batteries from another
+            # meter, and count them twice.)
+            fallback_ids = {c.component_id for c in fallback_components}
+            generator = SimplePowerFormula(
+                f"{self._namespace}_fallback_{fallback_ids}",
                 self._channel_registry,
                 self._resampler_subscription_sender,
                 FormulaGeneratorConfig(
-                    component_ids=battery_ids,
+                    component_ids=fallback_ids,
                     allow_fallback=False,
                 ),
             )
